@@ -328,3 +328,50 @@ Theorem history_example :
       ([(2, 1); (3, 1)], [[(2, true); (3, true)]; [(2, false)]], [[(1, true)]; [(1, false)]]) ] ].
 Proof. exact hist_example_lemma. Qed.
 Print Assumptions history_example.
+
+From PV Require Import Model.C03_Txt Proofs.C03_Txt.
+(* ---- texts of <words> directions through one process (Model/C03_Txt.v; round h3: state kept at module level) ---- *)
+
+(* the code keeps nothing between two parses: whatever ran before in the process (any state m), the directions made of
+   the texts of a history are those of each text on its own *)
+Theorem texts_load_current : forall h m, run_with step m h = map words_load h.
+Proof. exact run_current. Qed.
+Print Assumptions texts_load_current.
+
+Theorem texts_state_free : forall h m m', run_with step m h = run_with step m' h.
+Proof. exact run_state_free. Qed.
+Print Assumptions texts_state_free.
+
+(* a text without comma and without outer blank, as a direction states it, is written and read back as it is *)
+Theorem texts_roundtrip : forall raw, clean raw -> words_load (words_save raw) = [raw].
+Proof. exact roundtrip_clean. Qed.
+Print Assumptions texts_roundtrip.
+
+(* any number of files in one process, in any order: every direction comes back with the text ITS file states *)
+Theorem texts_process_roundtrip : forall h m, Forall clean h -> run_with step m (map words_save h) = map (fun t => [t]) h.
+Proof. exact process_roundtrip. Qed.
+Print Assumptions texts_process_roundtrip.
+
+(* not vacuous: a memo keyed by the case-folded text ("allegro" after "Allegro", both orders) or by the blank-normalised
+   text ("allegro  molto" after "allegro molto") answers with the EARLIER spelling *)
+Theorem texts_casefold_memo_refuted :
+  run_with (step_keyed casefold) [] [allegro; allegro_l] = [[allegro]; [allegro]] /\
+  run_with (step_keyed casefold) [] [allegro_l; allegro] = [[allegro_l]; [allegro_l]] /\
+  run [] [allegro; allegro_l] = [[allegro]; [allegro_l]] /\ clean allegro /\ clean allegro_l.
+Proof. exact casefold_memo_refuted. Qed.
+Print Assumptions texts_casefold_memo_refuted.
+
+Theorem texts_squeeze_memo_refuted :
+  run_with (step_keyed squeeze) [] [allegro_m1; allegro_m] = [[allegro_m1]; [allegro_m1]] /\
+  run [] [allegro_m1; allegro_m] = [[allegro_m1]; [allegro_m]] /\ clean allegro_m.
+Proof. exact squeeze_memo_refuted. Qed.
+Print Assumptions texts_squeeze_memo_refuted.
+
+(* "A tempo, Dolce " makes two directions; the checker the correspondence evaluates accepts what the code returns and
+   rejects the earlier spelling *)
+Theorem texts_example :
+  words_load at_dolce = [[65; 32; 116; 101; 109; 112; 111]; [68; 111; 108; 99; 101]] /\
+  check_texts [([allegro; at_dolce], [[68; 111; 108; 99; 101]; allegro; [65; 32; 116; 101; 109; 112; 111]]); ([allegro_l], [allegro_l])] = true /\
+  check_texts [([allegro], [allegro]); ([allegro_l], [allegro])] = false.
+Proof. exact texts_example_lemma. Qed.
+Print Assumptions texts_example.
